@@ -117,6 +117,20 @@ def gen_grid(rng, knots, where=None, nmax=24):
     elif where == 'above':
         lo = xmax + span * rng.uniform(0.0, 0.3)
         hi = lo + span * rng.uniform(0.1, 0.5)
+    elif where in ('span_two', 'span_step'):
+        # ONE step over the whole knot range: the level before it lies below (or on) the lowest knot, the
+        # level after it above (or on) the highest; 'span_two' is the grid of just these two levels,
+        # 'span_step' has 0-3 ordinary levels on either side of the huge step
+        off = [0.5, 10.0, span / 3, 1e-3, 250.0, 3 * span]
+        a = xmin - rng.choice(off) if (where == 'span_two' or rng.random() < 0.75) else xmin
+        b = xmax + rng.choice(off) if (where == 'span_two' or a == xmin or rng.random() < 0.75) else xmax
+        grid = [a, b]
+        if where == 'span_step':
+            for _ in range(rng.randrange(0, 4)):
+                grid.insert(0, grid[0] - rng.choice([0.5, 1.0, 7.25, span / 5]))
+            for _ in range(rng.randrange(0, 4)):
+                grid.append(grid[-1] + rng.choice([0.5, 1.0, 7.25, span / 5]))
+        return where, [float(g) for g in grid]
     else:  # 'master': what the command produces: integer multiples of a step
         step = rng.choice([1.0, 0.5, 2.0, 5.0, 0.1, 10.0])
         k0 = math.floor((xmin - span * rng.uniform(-0.3, 0.3)) / step)
